@@ -10,6 +10,7 @@ import (
 	rolloutv1beta1 "github.com/openkruise/rollouts/api/v1beta1"
 	"github.com/openkruise/rollouts/pkg/verifrt"
 	"github.com/openkruise/rollouts/pkg/verifrt/symclient"
+	apps "k8s.io/api/apps/v1"
 	metav1 "k8s.io/apimachinery/pkg/apis/meta/v1"
 	"sigs.k8s.io/controller-runtime/pkg/client"
 )
@@ -42,4 +43,60 @@ func VerifC10_CloneSetRollbackIsDetected() {
 	verifrt.Assert(w.IsInRollback == (inProgress && revertedToStable && otherRevisionPodsExist), "C10.finder.cloneset.rollbackDetectedIffRevertedWhilePodsOfAnotherRevisionExist")
 	verifrt.Assert(w.InRolloutProgressing == inProgress, "C10.finder.cloneset.inProgressFlag")
 	verifrt.Assert(w.Replicas == R, "C10.finder.cloneset.replicasAreTheDesiredSize")
+}
+
+// VerifC10_DeploymentRollbackIsDetected: for a native Deployment under rollout the finder reports IsInRollback exactly
+// when the Deployment's template is the stable ReplicaSet's template again — whether or not a canary Deployment (or
+// its ReplicaSet) exists at that moment.  A revert made before the first batch created the canary, or after the canary
+// was removed, is still a rollback; reported as a plain revision change it would be handled as a new release of the
+// stable revision against itself.
+func VerifC10_DeploymentRollbackIsDetected() {
+	d := &apps.Deployment{TypeMeta: metav1.TypeMeta{APIVersion: "apps/v1", Kind: "Deployment"},
+		ObjectMeta: metav1.ObjectMeta{Namespace: "ns", Name: "w", Generation: 4, UID: "uid-w"}}
+	R := int32(verifrt.IntRange("spec.replicas", 0, 1000))
+	d.Spec.Replicas = &R
+	d.Status.ObservedGeneration = 4
+	vers := []string{"v1", "v2"}
+	d.Spec.Template.Labels = map[string]string{"app": "w", "ver": vers[verifrt.IntRange("deployment.templateVersion", 0, 1)]}
+	inProgress := verifrt.Bool("inRolloutProgressing")
+	if inProgress {
+		d.Annotations = map[string]string{InRolloutProgressingAnnotation: `{"rolloutName":"ro"}`}
+	}
+	stableRs := &apps.ReplicaSet{ObjectMeta: metav1.ObjectMeta{Namespace: "ns", Name: "w-stable", Labels: map[string]string{apps.DefaultDeploymentUniqueLabelKey: "hash-v1"}}}
+	stableRs.Spec.Template.Labels = map[string]string{"app": "w", "ver": "v1", apps.DefaultDeploymentUniqueLabelKey: "hash-v1"}
+	// the canary side: 0 no canary Deployment yet (or any more), 1 canary Deployment without its ReplicaSet, 2 both
+	canaryState := verifrt.IntRange("canary.state", 0, 2)
+	canary := &apps.Deployment{ObjectMeta: metav1.ObjectMeta{Namespace: "ns", Name: "w-canary", UID: "uid-canary"}}
+	canaryRs := &apps.ReplicaSet{ObjectMeta: metav1.ObjectMeta{Namespace: "ns", Name: "w-canary-rs", Labels: map[string]string{apps.DefaultDeploymentUniqueLabelKey: "hash-canary"}}}
+	verifrt.Stub("(*github.com/openkruise/rollouts/pkg/util.ControllerFinder).GetDeploymentStableRs", func(r *ControllerFinder, obj *apps.Deployment) (*apps.ReplicaSet, error) {
+		if obj.Name == "w" {
+			return stableRs, nil
+		}
+		if canaryState == 2 {
+			return canaryRs, nil
+		}
+		return nil, nil
+	})
+	verifrt.Stub("(*github.com/openkruise/rollouts/pkg/util.ControllerFinder).getLatestCanaryDeployment", func(r *ControllerFinder, stable *apps.Deployment) (*apps.Deployment, error) {
+		if canaryState == 0 {
+			return nil, nil
+		}
+		return canary, nil
+	})
+	cli := &symclient.Client{Objects: []client.Object{d}}
+	f := NewControllerFinder(cli)
+	w, err := f.getDeployment("ns", &rolloutv1beta1.ObjectRef{APIVersion: "apps/v1", Kind: "Deployment", Name: "w"})
+	verifrt.Assert(err == nil && w != nil && w.IsStatusConsistent, "C10.finder.deployment.found")
+	if err != nil || w == nil {
+		return
+	}
+	reverted := d.Spec.Template.Labels["ver"] == "v1"
+	verifrt.Assert(w.IsInRollback == (inProgress && reverted), "C10.finder.deployment.rollbackDetectedIffTemplateIsTheStableOneAgain")
+	verifrt.Assert(w.InRolloutProgressing == inProgress, "C10.finder.deployment.inProgressFlag")
+	verifrt.Assert(w.StableRevision == "hash-v1" && w.Replicas == R, "C10.finder.deployment.stableRevisionAndSize")
+	if inProgress && !reverted && canaryState == 2 {
+		verifrt.Assert(w.PodTemplateHash == "hash-canary", "C10.finder.deployment.podTemplateHashFromTheCanaryReplicaSet")
+	} else if canaryState != 2 {
+		verifrt.Assert(w.PodTemplateHash == "", "C10.finder.deployment.noPodTemplateHashWithoutACanaryReplicaSet")
+	}
 }
